@@ -32,8 +32,9 @@ static size_t build_synth_dict(uint8_t* dst, size_t cap, Rng* r, const uint8_t* 
     if (cap < clen + 1200) return 0;
     op[0] = 0x37; op[1] = 0xA4; op[2] = 0x30; op[3] = 0xEC; op[4] = (uint8_t)id; op[5] = (uint8_t)(id >> 8); op[6] = (uint8_t)(id >> 16); op[7] = (uint8_t)(id >> 24); op += 8;
     {   unsigned count[256]; HUF_CREATE_STATIC_CTABLE(ct, 255); static unsigned wk[HUF_CTABLE_WORKSPACE_SIZE_U32]; unsigned maxs = 0, present = 0; size_t bits;
-        int const full = rng_coin(r, 1, 3);
-        for (k = 0; k < 256; k++) { count[k] = (full || rng_coin(r, 1, 2)) ? 1 + (unsigned)rng_below(r, rng_coin(r, 1, 5) ? 5000 : 40) : 0; if (count[k]) { maxs = k; present++; } }
+        int const shape = (int)rng_below(r, 3);   /* 0 all 256 symbols, 1 random subset (zero weights inside), 2 symbols 0..m only, none missing below m (table stops short, no zero weight) */
+        unsigned const m = 1 + (unsigned)rng_below(r, rng_coin(r, 1, 2) ? 127 : 254);
+        for (k = 0; k < 256; k++) { int const in = shape == 0 || (shape == 1 && rng_coin(r, 1, 2)) || (shape == 2 && k <= m); count[k] = in ? 1 + (unsigned)rng_below(r, rng_coin(r, 1, 5) ? 5000 : 40) : 0; if (count[k]) { maxs = k; present++; } }
         if (present < 2) { count[0] = 3; count[1] = 2; maxs = maxs > 1 ? maxs : 1; }
         bits = HUF_buildCTable_wksp(ct, count, maxs, 8 + (unsigned)rng_below(r, 4), wk, sizeof wk);
         if (HUF_isError(bits)) return 0;
